@@ -1437,6 +1437,7 @@ package hashgraph
 //@   ensures[hit]  ret1 == nil ==> ret0 != nil && __in(participant, G_dbRoots(s)) && RootSame(ret0, G_dbRoots(s)[participant])
 //@   ensures[nf]   ret1 != nil && IsDbNF(ret1) ==> !__in(participant, G_dbRoots(s))
 //@   ensures[err]  ret1 != nil ==> ret0 == nil && !common.IsStore(ret1, common.KeyNotFound)
+//@   ensures[raw]  (ret1 == nil ==> __in(string(participantRootKey(participant)), G_raw(s.db))) && (ret1 != nil && !DbReadFault(ret1) ==> !__in(string(participantRootKey(participant)), G_raw(s.db)))
 
 //@ func (s *BadgerStore) GetRoot(participant string) (*Root, error)
 //@   requires s != nil && s.inmemStore != nil
@@ -1626,7 +1627,21 @@ package hashgraph
 //@   call Marshal assert[of-peer] __recv() == peer
 //@   call Set assert[record] string(__argT[[]byte](0)) == string(repertoireKey(peer.PubKeyString())) && __samebytes(__argT[[]byte](1), __lastretT[[]byte]("Marshal", 0))
 //@   ensures[written] ret0 == nil ==> __in(string(repertoireKey(peer.PubKeyString())), G_raw(s.db))
+//@   ensures[others]  forall k string :: k != string(repertoireKey(peer.PubKeyString())) ==> __in(k, G_raw(s.db)) == old(__in(k, G_raw(s.db))) && __seqeq(G_raw(s.db)[k], old(G_raw(s.db))[k])
 //@   ensures[fail]    ret0 != nil ==> __eq(G_raw(s.db), old(G_raw(s.db)))
+
+// DbReadFault: the error of a database read is a fault of the database or the codec, not the absence of the record.
+//@ ghost opaque func DbReadFault(err error) bool
+
+// Extending the repertoire (every SetPeerSet, also after a fast-sync reset wrote the frame's roots): a root record
+// that is already in the database is never replaced - a base root is written only when the read found none.
+//@ func (s *BadgerStore) addParticipant(p *peers.Peer) error
+//@   requires s != nil && s.db != nil && p != nil
+//@   modifies G_raw(s.db), anyghost hashgraph.pend
+//@   call dbSetRepertoire assume[key-spaces] string(participantRootKey(p.PubKeyString())) != string(repertoireKey(p.PubKeyString()))
+//@   ensures[maintenance] s.maintenanceMode ==> __eq(G_raw(s.db), old(G_raw(s.db)))
+//@   ensures[root-kept]   old(__in(string(participantRootKey(p.PubKeyString())), G_raw(s.db))) && !(__called("dbGetRoot") && __lastret("dbGetRoot", 1) != nil && DbReadFault(__lastretT[error]("dbGetRoot", 1))) ==> __in(string(participantRootKey(p.PubKeyString())), G_raw(s.db)) && __seqeq(G_raw(s.db)[string(participantRootKey(p.PubKeyString()))], old(G_raw(s.db))[string(participantRootKey(p.PubKeyString()))])
+//@   ensures[others]      forall k string :: k != string(participantRootKey(p.PubKeyString())) && k != string(repertoireKey(p.PubKeyString())) ==> __in(k, G_raw(s.db)) == old(__in(k, G_raw(s.db))) && __seqeq(G_raw(s.db)[k], old(G_raw(s.db))[k])
 
 //@ func (s *InmemStore) RepertoireByID() map[uint32]*peers.Peer
 //@   implements Store.RepertoireByID
